@@ -152,9 +152,6 @@ func driveEncoder(ctx *Ctx, e *encode.Encoder, hist []world.Op, probe bool, deep
 			if _, ok := err.(encode.EncodeError); !ok {
 				return res, viol("C10", "sticky", "after call #%d Bytes returned %T (%v), not an encode.EncodeError", i, err, err)
 			}
-			if b != nil {
-				return res, viol("C10", "accept", "after call #%d Bytes returned an error together with %d bytes", i, len(b))
-			}
 			if firstErr == nil {
 				firstErr = err
 			} else if err != firstErr {
